@@ -89,6 +89,28 @@ type c05Point struct {
 }
 
 func (p c05Point) build() (expr string, raw any, norm any) {
+	if p.Form == "avg-list" || p.Form == "sum-list" {
+		// X is a comma-separated list of operands: the whole array under avg / sum
+		fn := strings.TrimSuffix(p.Form, "-list")
+		var rs, ns []any
+		for _, v := range strings.Split(p.X, ",") {
+			var carrier any = json.Number(v)
+			if p.Delivery == "decimal128" {
+				d, err := decimal128.Parse(v)
+				if err != nil {
+					panic("c05: cannot parse " + v)
+				}
+				carrier = d
+			}
+			rs = append(rs, carrier)
+			n, _ := core.NumOf(json.Number(v))
+			ns = append(ns, n)
+		}
+		if p.Delivery == "literal" {
+			return fn + "(`[" + p.X + "]`)", nil, nil
+		}
+		return fn + "(x)", map[string]any{"x": rs}, map[string]any{"x": ns}
+	}
 	names := []string{"x", "y", "z"}
 	vals := []string{p.X, p.Y, p.Z}
 	ref := func(i int) string {
@@ -275,6 +297,13 @@ func c05Run(r *core.Run) {
 			}
 		}
 	}
+	li := 0
+	c05Lists(r.Thorough(), func(p c05Point) {
+		li++
+		if r.Mine(li / 6) {
+			do(p)
+		}
+	})
 	for i, x := range sub {
 		if !r.Mine(i) {
 			continue
@@ -291,6 +320,32 @@ func c05Run(r *core.Run) {
 			}
 		}
 	}
+}
+
+// c05Lists: every array of 4..7 (thorough: 8) small integers, and of 4..5 mixed-scale decimals, under avg and sum: the exact
+// mean of a few small integers is always representable, whatever the means of its prefixes are.
+func c05Lists(thorough bool, do func(c05Point)) {
+	maxLen := 7
+	if thorough {
+		maxLen = 8
+	}
+	var rec func(prefix []string, alpha []string, max int)
+	rec = func(prefix []string, alpha []string, max int) {
+		if len(prefix) >= 4 {
+			for _, dl := range c05Deliveries {
+				do(c05Point{Form: "avg-list", X: strings.Join(prefix, ","), Delivery: dl})
+				do(c05Point{Form: "sum-list", X: strings.Join(prefix, ","), Delivery: dl})
+			}
+		}
+		if len(prefix) == max {
+			return
+		}
+		for _, a := range alpha {
+			rec(append(prefix[:len(prefix):len(prefix)], a), alpha, max)
+		}
+	}
+	rec(nil, []string{"0", "1", "2"}, maxLen)
+	rec(nil, []string{"0.1", "7", "-3", "1e33", "2.5"}, 5)
 }
 
 func c05Judge(r *core.Run, phase string, pt map[string]any) *core.Violation {
